@@ -96,6 +96,7 @@ class Interp:
         self.warnings = []         # unmodelled callees etc.
         self.calllog = []          # (callee, args, result) for watched callees
         self.const_cells = set()
+        self.trace_caps = []
         self.trace_names = None    # callee short names whose call sites are recorded, in execution order, in self.trace
         self.trace = []
         self.watch = set()
@@ -1623,6 +1624,23 @@ class Interp:
         name = c.get("instance") or c.get("path")
         if self.trace_names and c.get("name") in self.trace_names:
             self.trace.append((body.name, bb))
+            # which enum variants the closures handed to this call have captured (a comparator that dispatches on a captured
+            # `Column` is specialised to that variant by the rule that reads the trace)
+            caps = {}
+            for a in args:
+                f = a
+                if isinstance(f, RefV):
+                    f = self.get_path(state, f.cell, f.proj)
+                if isinstance(f, ClosureV):
+                    cb_ = self.facts.bodies.get(f.body)
+                    names = [x["name"].lstrip("*&") for x in (cb_.j.get("captures") or [])] if cb_ is not None else []
+                    for nm_, cv in zip(names, f.captures):
+                        for _ in range(3):
+                            if isinstance(cv, RefV):
+                                cv = self.get_path(state, cv.cell, cv.proj)
+                        if isinstance(cv, EnumV) and len(cv.variants) == 1:
+                            caps[nm_] = list(cv.variants)[0]
+            self.trace_caps.append(caps)
         try:
             st2, rv = self.call(state, c, name, args, body, t)
         except Diverge:
